@@ -69,7 +69,7 @@ class C16(Check):
     _ops = {}
 
     def generate(self, rng, tier, shard, nshards):
-        n = 360 if tier == 'quick' else 10 ** 7
+        n = 300 if tier == 'quick' else 10 ** 7
         big = 3 * 131072 + 17 if tier == 'quick' else 1 << 20
         for k in range(n):
             codec = ('gzip', 'zstd')[k % 2]
